@@ -63,6 +63,7 @@ func c05Configs(tier string) []vmc.Cfg {
 	gc := c05op{kind: "gc"}
 	sleep := func(d time.Duration) c05op { return c05op{kind: "sleep", d: d} }
 	expired := []c05op{put(kA, 2, "old"), sleep(c05MaxAge + 1)}
+	expiredS := []c05op{put(kA, 2, "old"), sleep(c05MaxAge + time.Second)}
 	atAge := []c05op{put(kA, 2, "old"), sleep(c05MaxAge)}
 	cfgs := []c05cfg{
 		{"put-put-put/empty", nil, [][]c05op{{put(kA, 1, "x")}, {put(kA, 2, "y")}, {put(kA, 2, "z")}}},
@@ -71,6 +72,9 @@ func c05Configs(tier string) []vmc.Cfg {
 		{"expired/get-put-get", expired, [][]c05op{{get(kA)}, {put(kA, 2, "fresh"), get(kA)}, {get(kA)}}},
 		{"expired/gc-put-get", expired, [][]c05op{{gc}, {put(kA, 3, "fresh")}, {get(kA)}}},
 		{"expired/gc-get-put", expired, [][]c05op{{gc, get(kA)}, {put(kA, 1, "fresh")}}},
+		// republished with the same value / a value of the same length, whole seconds later (the stored entries have equal sizes)
+		{"expired/get-reput-same", expiredS, [][]c05op{{get(kA)}, {put(kA, 2, "old"), get(kA)}, {get(kA)}}},
+		{"expired/gc-reput-same-length", expiredS, [][]c05op{{gc}, {put(kA, 3, "new")}, {get(kA)}}},
 		{"at-max-age/get-gc-put", atAge, [][]c05op{{get(kA)}, {gc}, {put(kA, 1, "w")}}},
 		{"invalid-and-equal", []c05op{put(kA, 2, "x")}, [][]c05op{{put(kA, 2, "bad")}, {put(kA, 2, "same")}, {get(kA)}}},
 		{"same-stripe-keys", nil, [][]c05op{{put(kA, 1, "x"), get(kA2)}, {put(kA2, 1, "y"), get(kA)}, {put(kB, 1, "z")}}},
